@@ -193,3 +193,59 @@ def c03(tier, seed, replay):
                         ASSUME_COMMON + ["schedule points sit between the publication steps of commit / compaction and between the field "
                                          "reads of snapshot assembly; one writer, one reader"])
     return 1 if nv else 0
+
+
+# ------------------------------------------------------------------------------------------------
+# C10
+# ------------------------------------------------------------------------------------------------
+def handle_scenarios():
+    n = lambda ext, l="A": ["CreateNode", str(ext), l]
+    return [
+        {"id": "one-handle-at-a-time", "steps": [["open", "h1"], ["tx", "h1", [n(1)]], ["drop", "h1"], ["open", "h2"], ["tx", "h2", [n(2)]], ["close", "h2"]]},
+        {"id": "second-open-same-process", "steps": [["open", "h1"], ["tx", "h1", [n(1)]], ["open", "h2"]]},
+        {"id": "both-commit", "steps": [["open", "h1"], ["open", "h2"], ["tx", "h1", [n(1)]], ["tx", "h2", [n(2)]], ["drop", "h1"], ["drop", "h2"]]},
+        {"id": "both-commit-interleaved", "steps": [["open", "h1"], ["tx", "h1", [n(1)]], ["open", "h2"], ["tx", "h2", [n(2)]], ["tx", "h1", [n(3)]],
+                                                     ["tx", "h2", [n(4)]], ["close", "h1"], ["close", "h2"]]},
+        {"id": "compact-under-the-other", "steps": [["open", "h1"], ["tx", "h1", [n(1), n(2), ["CreateEdge", 0, "R", 1]]], ["open", "h2"],
+                                                    ["tx", "h2", [n(3)]], ["compact", "h1"], ["tx", "h2", [n(4)]], ["drop", "h2"], ["close", "h1"]]},
+        {"id": "second-process", "steps": [["open", "h1"], ["tx", "h1", [n(1)]], ["child-open", "child"], ["tx", "h1", [n(2)]], ["close", "h1"]]},
+        {"id": "second-process-after-close", "steps": [["open", "h1"], ["tx", "h1", [n(1)]], ["close", "h1"], ["child-open", "child"]]},
+    ]
+
+
+@reg("C10")
+def c10(tier, seed, replay):
+    t0 = time.time()
+    vlib.build_harness()
+    cd = cache_dir("handles", tier, seed)
+    os.makedirs(cd, exist_ok=True)
+    ok = model_run("Handles", "MC_HandlesRefuse", tier, "handles-refuse", workers=2, timeout=300)
+    neg = model_run("Handles", "MC_HandlesNoLock", tier, "handles-nolock", workers=2, timeout=300, must_hold=False)
+    if not neg.get("violated"):
+        raise ToolError("Handles sensitivity: without refusal the model must violate UniqueIds / DenseIds")
+    scenarios = [json.load(open(replay))["scenario"]] if replay else handle_scenarios()
+    ip, tp = os.path.join(cd, "scenarios.ndjson"), os.path.join(cd, "trace.ndjson")
+    vlib.write_ndjson(ip, scenarios)
+    stats = vlib.nvx(["handles", "--in", ip, "--out", tp, "--scratch", os.path.join(cd, "scratch")])
+    shutil.rmtree(os.path.join(cd, "scratch"), ignore_errors=True)
+    findings, info = vlib.tlc_trace("SchedTrace", tp, "handles-" + tier)
+    by_id = {s["id"]: s for s in scenarios}
+    selftest = {"ran": False}
+    if not replay:
+        e = json.loads(open(tp).readline())
+        e["acked"].append(["h1", "424242"])
+        sp = os.path.join(cd, "selftest.ndjson")
+        open(sp, "w").write(json.dumps(e) + "\n")
+        sf, _ = vlib.tlc_trace("SchedTrace", sp, "handles-selftest")
+        if not any(f["kind"] == "acknowledged-commit-lost" for f in sf):
+            raise ToolError("binding self-test failed: a lost acknowledged commit was accepted")
+        selftest = {"ran": True, "findings_on_corrupted_trace": len(sf)}
+    nv, nk = generic_verdict("C10", findings, lambda f: {"property": "C10", "finding": f, "scenario": by_id.get(f["id"])})
+    cov = {"states": ok["states"], "transitions": ok["transitions"],
+           "model": {"with_refusal_holds": True, "without_refusal_violates": neg.get("violated")},
+           "traces_validated_against_impl": len(scenarios), "evaluations": len(scenarios), "distinct_nontrivial": len(scenarios) - 1,
+           "rule": "hand-written handle scenarios (same process and a child process; commits, compaction, close in both orders); "
+                   "non-trivial = a second open is attempted while a handle is open",
+           "harness_stats": stats, "binding_selftest": selftest, "samples": scenarios[:2], "known_findings_seen": nk}
+    vlib.write_evidence("C10", tier, seed, "model_checking", cov, time.time() - t0, nv, ASSUME_COMMON)
+    return 1 if nv else 0
